@@ -92,13 +92,20 @@ def run(spec: KaniSpec, harnesses: list[KaniHarness] | None = None, jobs: int = 
             cmd += list(spec.flags)
             for h in hlist:
                 cmd += ["--harness", h.name]
+            # own session, so that a timeout can kill cargo-kani together with its cbmc children
+            proc = subprocess.Popen(cmd, cwd=dst, stdout=subprocess.PIPE, stderr=subprocess.PIPE, text=True, env=env,
+                                    start_new_session=True)
             try:
-                p = subprocess.run(cmd, cwd=dst, capture_output=True, text=True, env=env, timeout=spec.timeout_s)
-                return cmd, p.stdout + "\n" + p.stderr, False
-            except subprocess.TimeoutExpired as e:
-                o = (e.stdout.decode() if isinstance(e.stdout, bytes) else (e.stdout or "")) + "\n" + \
-                    (e.stderr.decode() if isinstance(e.stderr, bytes) else (e.stderr or ""))
-                return cmd, o, True
+                so, se = proc.communicate(timeout=spec.timeout_s)
+                return cmd, so + "\n" + se, False
+            except subprocess.TimeoutExpired:
+                import signal
+                try:
+                    os.killpg(proc.pid, signal.SIGKILL)
+                except ProcessLookupError:
+                    pass
+                so, se = proc.communicate()
+                return cmd, (so or "") + "\n" + (se or ""), True
 
         cmd, out, timed_out = invoke(hs, False)
         res = parse(out, hs)
